@@ -111,8 +111,8 @@ def doc_examples(rep, prop):
     rep.stages.append({"stage": "user-guide documents", "documents": len(recs)})
 
 
-def states(rep, label, **kw):
-    res = P.serial_states(P.core_constants(ops=["add", "add_node"], emit=False, **kw))
+def states(rep, label, all_states=False, **kw):
+    res = P.serial_states(P.core_constants(ops=["add", "add_node"], emit=False, **kw), all_states=all_states)
     if not res.ok:
         raise P.TLCError(f"{label}: TLC found a serialisation law violated on the spec: {res.errors[:3]} {res.tail[-8:]}")
     rep.add_mc(res, label)
@@ -152,6 +152,8 @@ def run(prop: str, tier: str) -> int:
     if prop == "C14":
         run_items(rep, prop, plain, "str", quick, "c14")
         run_items(rep, prop, plain, "dataclass", quick, "c14-objects")
+        # the dict-list form carries every node's own data: clone groups holding different data objects included
+        ids = states(rep, "ids<=3 (all states)", all_states=True, max_nodes=3, d=2, xids=(0, 11))
         run_items(rep, prop, ids, "str", quick, "c14-ids")
         run_items(rep, prop, ids, "str0", quick, "c14-falsy-ids")          # explicit ids 0 and ""
         run_items(rep, prop, ids, "dataclass", quick, "c14-ids-objects")   # incl. mapper pairs that relocate the id
@@ -167,7 +169,12 @@ def run(prop: str, tier: str) -> int:
         run_items(rep, prop, typed_ids if not quick else typed_ids[::2], "dataclass+typed", quick, "typed-ids-objects")
         run_items(rep, prop, typed if not quick else typed[::3], "dataclass+typed", quick, "typed-objects")
         run_items(rep, prop, plain if not quick else plain[::3], "ustr", quick, "unicode")
+        # DictWrapper data with the library's own mapper pair (maps that name keys of the user's dicts)
+        run_items(rep, prop, plain if not quick else plain[1::2], "dwrap", quick, "dictwrapper")
         if prop == "C05":
+            # ... which keeps neither a node's explicit data_id nor its kind (open findings KF-dictwrapper-mapper-*)
+            run_items(rep, prop, ids if not quick else ids[::3], "dwrapx", quick, "dictwrapper-ids")
+            run_items(rep, prop, typed if not quick else typed[::3], "dwrap+typed", quick, "dictwrapper-typed")
             # a tree with an id callback: the ids are not hash(data) and must come back from the file
             run_items(rep, prop, plain if not quick else plain[2::3], "strcb", quick, "id-callback")
         # falsy data objects (the empty string) rebuilt by the mappers
